@@ -308,6 +308,33 @@ fn digest_chunks(req: &Value) -> R {
         let d = if rev { d.reverse() } else { d };
         d.finalize_fixed().to_vec()
     }
+    /// the same adapter object used three times: finalize_fixed_reset, again finalize_fixed_reset, then an explicit reset
+    fn reuse<D: Update + FixedOutput + digest::Reset + ReversibleDigest + Default>(chunks: &[Vec<u8>], rev: bool) -> Vec<Vec<u8>> {
+        let mut d = if rev { D::default().reverse() } else { D::default() };
+        let mut outs = vec![];
+        for _ in 0..2 {
+            for c in chunks {
+                d.update(c);
+            }
+            outs.push(d.finalize_fixed_reset().to_vec());
+        }
+        d.update(b"garbage that the reset must discard");
+        digest::Reset::reset(&mut d);
+        for c in chunks {
+            d.update(c);
+        }
+        outs.push(d.finalize_fixed().to_vec());
+        outs
+    }
+    if bo(req, "reuse") {
+        let outs = match st(req, "kind")? {
+            "sha256d" => reuse::<bsv::hash::sha256d_digest::Sha256d>(&chunks, rev),
+            "sha256r" => reuse::<Sha256r>(&chunks, rev),
+            "hash160" => reuse::<bsv::hash::hash160_digest::Hash160>(&chunks, rev),
+            k => return Err(drv(format!("kind {} has no reuse mode", k))),
+        };
+        return Ok(Value::Array(outs.iter().map(|o| h(o)).collect()));
+    }
     let out = match st(req, "kind")? {
         "sha256d" => run::<bsv::hash::sha256d_digest::Sha256d>(&chunks, rev),
         "sha256r" => run::<Sha256r>(&chunks, rev),
